@@ -988,7 +988,7 @@ func receivedCloseTrial(c *kit.Case, e *env) (*verdict, string, map[string]any) 
 	}
 	defer rc.pc.Close()
 	defer conn.Close()
-	scenario := kit.Pick(r, []string{"valid", "valid", "forbidden", "forbidden", "bad-utf8", "unspecified", "empty", "server-first", "client-first-then-server", "two-client-closes", "race", "race", "race", "race"})
+	scenario := kit.Pick(r, []string{"valid", "valid", "forbidden", "forbidden", "bad-utf8", "unspecified", "empty", "server-first", "server-first-writemessage", "client-first-then-server", "two-client-closes", "race", "race", "race", "race"})
 	det := map[string]any{"scenario": scenario}
 	reason := reasonOfLen(r, kit.Pick(r, []int{0, 0, 3, 50, 123}))
 	readErr := func() (error, *websocket.CloseError) {
@@ -1070,11 +1070,17 @@ func receivedCloseTrial(c *kit.Case, e *env) (*verdict, string, map[string]any) 
 			}
 			c.Count("received_close_accepted_and_recorded", 1)
 		}
-	case "server-first":
+	case "server-first", "server-first-writemessage":
 		x, y := kit.Pick(r, validCodes), kit.Pick(r, validCodes)
 		det["server_code"], det["client_code"] = x, y
-		if err := conn.WriteControl(websocket.CloseMessage, websocket.FormatCloseMessage(x, reason), time.Time{}); err != nil {
-			return &verdict{"close-write-failed", err.Error()}, "", det
+		var werr error
+		if scenario == "server-first" {
+			werr = conn.WriteControl(websocket.CloseMessage, websocket.FormatCloseMessage(x, reason), time.Time{})
+		} else {
+			werr = conn.WriteMessage(websocket.CloseMessage, websocket.FormatCloseMessage(x, reason))
+		}
+		if werr != nil {
+			return &verdict{"close-write-failed", werr.Error()}, "", det
 		}
 		rc.send(wsmodel.Frame{Fin: true, Opcode: wsmodel.OpClose, Payload: wsmodel.ClosePayload(y, "")}, r)
 		err, ce := readErr()
@@ -1089,6 +1095,9 @@ func receivedCloseTrial(c *kit.Case, e *env) (*verdict, string, map[string]any) 
 			return &verdict{"server-close-frame-differs", fmt.Sprintf("server wrote close %d %q; on the wire: %v", x, reason, codesOf(closes))}, "", det
 		}
 		if rcode, incoming := conn.CloseCode(); rcode != x || incoming {
+			if scenario == "server-first-writemessage" {
+				return &verdict{"close-sent-through-writer-not-recorded", fmt.Sprintf("first close frame observed: outgoing %d written with WriteMessage(CloseMessage) (then incoming %d); CloseCode() = (%d, incoming=%v)", x, y, rcode, incoming)}, "", det
+			}
 			return &verdict{"recorded-close-code-not-first-frame", fmt.Sprintf("first close frame observed: outgoing %d (then incoming %d); CloseCode() = (%d, incoming=%v)", x, y, rcode, incoming)}, "", det
 		}
 		c.Count("first_close_outgoing_recorded", 1)
@@ -1220,7 +1229,7 @@ func TestC31(t *testing.T) {
 			"Handshake trials: baseline valid request with 0-3 deviating dimensions out of method (POST/PUT/HEAD/OPTIONS/DELETE/get), HTTP/1.0, Connection (token lists, casing, two lines, missing, look-alike tokens), Upgrade (same), Sec-WebSocket-Version (missing, 0/1/8/12/14/130/013/13x, lists), Sec-WebSocket-Key (missing, empty, 8/15/17/18/20 bytes, non-base64, url-safe alphabet, unpadded, two lines), Origin vs Host (absent, same host in other case/scheme, other host/port, prefix/suffix/userinfo tricks, null); plus random subprotocol offers, extension offers, header-name casing, header order, data sent before the handshake ends. " +
 			"Oracle: accepted <=> no deviation classified invalid by RFC 6455 4.2.1 / the documented default origin check (deviations the RFC leaves open are only counted); Sec-WebSocket-Accept recomputed (SHA-1/base64); selected subprotocol in offered and supported; negotiated extension offered and enabled; the upgraded connection carries an echo / a centrifuge connect reply. " +
 			"Disconnect trials: JSON client connects through WebsocketHandler, server calls Client.Disconnect(code 3001..4999, reason of 0..130 bytes ending in a 1-4 byte rune); oracle: close frame with exactly that code and reason whenever 2+len<=125, and the outgoing-close metric changes for exactly that code. " +
-			"Received-close trials (server Conn from the Upgrader): valid / empty / unspecified / forbidden codes, invalid UTF-8 reasons, server-first, client-first, two client closes, concurrent outgoing+incoming close; oracle: forbidden codes and invalid UTF-8 are rejected with close 1002 (1007 also accepted for UTF-8), valid ones are reported and echoed, CloseCode() equals the first close frame observed and, in the race, is consistent with the frame actually written. " +
+			"Received-close trials (server Conn from the Upgrader): valid / empty / unspecified / forbidden codes, invalid UTF-8 reasons, server-first (WriteControl and WriteMessage), client-first, two client closes, concurrent outgoing+incoming close; oracle: forbidden codes and invalid UTF-8 are rejected with close 1002 (1007 also accepted for UTF-8), valid ones are reported and echoed, CloseCode() equals the first close frame observed and, in the race, is consistent with the frame actually written. " +
 			"Non-trivial = every trial that reached its oracle; signature = trial kind + deviation labels / scenario.",
 		Assumptions: []string{
 			"validity classification of each handshake deviation is taken from RFC 6455 4.1/4.2.1 (token lists and case-insensitivity accepted); empty list elements, protocol/version in Upgrade, version lists, non-canonical base64 and repeated key headers are treated as unspecified",
@@ -1229,7 +1238,7 @@ func TestC31(t *testing.T) {
 			"close codes 1004, 1012-1014, 1016-2999 and >=5000 are neither required nor forbidden to be accepted (RFC 6455 7.4.2); only 0-999, 1005, 1006, 1015 and invalid UTF-8 reasons must be rejected",
 			"asynchronous effects (connect reply, close frame after Disconnect, metric update after the handler returns) are awaited with a 3 minute bound whose expiry yields INCONCLUSIVE only",
 		},
-		Cases:       map[string]int{"quick": 160, "thorough": 2400},
+		Cases:       map[string]int{"quick": 120, "thorough": 1200},
 		CaseTimeout: 20 * time.Minute,
 		RequireCounters: []string{
 			"handshakes_accepted", "handshakes_rejected", "echo_verified", "connect_reply_verified", "subprotocol_selected", "compression_negotiated",
